@@ -1,6 +1,8 @@
 package engine
 
 import (
+	"crypto/md5"
+	"encoding/binary"
 	"fmt"
 	"path/filepath"
 	"strings"
@@ -147,6 +149,11 @@ var c15UniNames []string
 var c15EmptyEntry string
 var c15EmptyNoIFSC bool
 
+// c15DupDesc, when set, makes the reference writer repeat the file
+// description packet of these files (by position) with another name but
+// the genuine packet's file id.
+var c15DupDesc []string
+
 func buildHostile(d *simdisk.Mem, par1Set bool, names []string, contents [][]byte) string {
 	return buildHostileShadow(d, par1Set, names, contents, 0)
 }
@@ -233,6 +240,30 @@ func buildHostileShadow(d *simdisk.Mem, par1Set bool, names []string, contents [
 			body = append(body, 0)
 		}
 		pk := ref.MakePacket(set.SetID, ref.TypeOf("PAR 2.0\x00UniFileN"), body)
+		idx = append(idx, pk...)
+		vol = append(vol, pk...)
+	}
+	// optional repeated file description packets: the file id of a
+	// genuine packet (no longer matching the name), the same hashes and
+	// length, another name, a correct packet checksum
+	for i, nm := range c15DupDesc {
+		if i >= len(files) || nm == "" {
+			continue
+		}
+		id := ref.FileID(files[i].Name, files[i].Data)
+		body := append([]byte(nil), id[:]...)
+		full := md5.Sum(files[i].Data)
+		body = append(body, full[:]...)
+		h16 := full
+		if len(files[i].Data) > 16384 {
+			h16 = md5.Sum(files[i].Data[:16384])
+		}
+		body = append(body, h16[:]...)
+		var u8 [8]byte
+		binary.LittleEndian.PutUint64(u8[:], uint64(len(files[i].Data)))
+		body = append(body, u8[:]...)
+		body = append(body, nm...)
+		pk := ref.MakePacket(set.SetID, ref.TypeFileDesc, body)
 		idx = append(idx, pk...)
 		vol = append(vol, pk...)
 	}
@@ -386,6 +417,20 @@ func containment(r *Run) {
 		}
 		r.Probe("unicode-filename-packets")
 	}
+	if !par1Set && r.SweepCase < 0 && c15UniNames == nil && t.Bool(1, 5, "repeated-description-packet") {
+		// the hostile names are declared in repeated file description
+		// packets that reuse the genuine packets' file ids; the genuine
+		// packets carry harmless names
+		c15DupDesc = append([]string(nil), names...)
+		for i := range c15DupDesc {
+			if !hostileAt[i] {
+				c15DupDesc[i] = ""
+			} else {
+				names[i] = fmt.Sprintf("benign%d.dat", i)
+			}
+		}
+		r.Probe("repeated-description-packet-with-stale-id")
+	}
 	if !par1Set && r.SweepCase < 0 && t.Bool(1, 5, "zero-length-hostile-entry") {
 		// one more entry: zero bytes long, declared under a hostile name
 		var hn []string
@@ -403,9 +448,14 @@ func containment(r *Run) {
 			r.Probe("zero-length-entry-with-hostile-name")
 		}
 	}
+	also := ""
+	if c15UniNames != nil || c15DupDesc != nil || c15EmptyEntry != "" {
+		also = fmt.Sprintf("; also declared: unicode-name packets %q, repeated description packets %q, zero-length entry %q", c15UniNames, c15DupDesc, c15EmptyEntry)
+	}
 	index := buildHostileShadow(d, par1Set, names, contents, shadow)
 	c15UniNames = nil
 	c15EmptyEntry = ""
+	c15DupDesc = nil
 	w := &World{Par1: par1Set, Disk: d, Dir: c15Dir, Base: "set", Index: index, S: 4}
 	// the index path as the caller spells it: absolute, relative to the
 	// archive directory, or relative to its parent (the base directory
@@ -421,7 +471,7 @@ func containment(r *Run) {
 		d.Cwd = filepath.Dir(c15Dir)
 		index = filepath.Base(c15Dir) + "/" + filepath.Base(index)
 	}
-	r.Logf("hostile archive par1=%v names=%q index=%q cwd=%s", par1Set, names, index, d.Cwd)
+	r.Logf("hostile archive par1=%v names=%q%s index=%q cwd=%s", par1Set, names, also, index, d.Cwd)
 	outcome := ""
 	for _, op := range []string{"verify", "repair", "repair-dc"} {
 		var res *OpResult
@@ -455,7 +505,7 @@ func containment(r *Run) {
 						r.Probe("failed-write-attempt-outside")
 						continue
 					}
-					r.Violate("wrote-outside-root", "%s wrote %s (declared names %q), outside %s", res.Op, a.Resolved, names, c15Dir)
+					r.Violate("wrote-outside-root", "%s wrote %s (declared names %q%s), outside %s", res.Op, a.Resolved, names, also, c15Dir)
 				}
 			case 'R':
 				if !inside && a.Resolved != "" {
